@@ -8,7 +8,7 @@ structure St where
   world : Nat → Tree := fun _ => none
   keys : Keys := Keys.init geo.nKeys
 
-def showEv (dt : Dtors) : Ev → Option String
+def showEv (dt : Dtors) : MythVerif.Tls.Ev → Option String
   | .call k v => some s!"c{(dt k).getD 999}:{v}"
   | .oob k => some s!"oob{k}"
   | .free => none
@@ -42,7 +42,7 @@ def step (s : St) (line : String) : St × String :=
     | some t =>
       let evs := fini geo fixedWalk s.keys.dtor (s.world t)
       let calls := evs.filterMap (showEv s.keys.dtor)
-      let frees := evs.countP (· == Ev.free)
+      let frees := evs.countP (· == MythVerif.Tls.Ev.free)
       ({ s with world := upd s.world t none }, "calls" ++ String.join (calls.map (" " ++ ·)) ++ s!" frees {frees}")
     | none => (s, "bad-op")
   | _ => (s, "bad-op")
